@@ -141,6 +141,18 @@ func (f *simFS) record(op, path string, n int, err error) {
 
 // fault returns the fault that fires for this call, if any.
 func (f *simFS) fault(op, path string) *FSFault {
+	hit := f.faultRaw(op, path)
+	if hit != nil {
+		if _, isSig := sigByName[hit.Kind]; isSig {
+			// a signal arrives just before this call; if the process survives it the call goes on
+			f.w.deliverSignal(hit.Kind)
+			return nil
+		}
+	}
+	return hit
+}
+
+func (f *simFS) faultRaw(op, path string) *FSFault {
 	var hit *FSFault
 	for i := range f.faults {
 		ft := &f.faults[i]
@@ -369,7 +381,19 @@ func WriteFile(name string, data []byte, perm os.FileMode) error {
 	f := fsys()
 	p := f.abs(name)
 	yieldFS("open-w", p)
-	ft := f.fault("write", p)
+	ft := f.faultRaw("write", p)
+	sigKind, sigAt := "", -1
+	if ft != nil {
+		if _, isSig := sigByName[ft.Kind]; isSig {
+			// the signal arrives when After bytes of this file have been written (0: before the open)
+			sigKind, sigAt = ft.Kind, ft.After
+			ft = nil
+			if sigAt <= 0 {
+				sigAt = -1
+				f.w.deliverSignal(sigKind)
+			}
+		}
+	}
 	if ft != nil && ft.Kind != "short" {
 		err := pathErr("open", name, errnoByName[ft.Kind])
 		f.record("open-w", p, 0, err)
@@ -411,6 +435,10 @@ func WriteFile(name string, data []byte, perm os.FileMode) error {
 	var werr error
 	for off < len(data) {
 		yieldFS("write", p)
+		if sigAt >= 0 && off >= sigAt {
+			sigAt = -1
+			f.w.deliverSignal(sigKind)
+		}
 		k := len(data) - off
 		if k > chunk {
 			k = chunk
@@ -442,6 +470,10 @@ func WriteFile(name string, data []byte, perm os.FileMode) error {
 		}
 	}
 	yieldFS("close-w", p)
+	if sigAt >= 0 {
+		sigAt = -1
+		f.w.deliverSignal(sigKind)
+	}
 	n.writers--
 	f.record("close-w", p, off, werr)
 	return werr
